@@ -255,7 +255,8 @@
  *        channel->all_queries (id, token if the callback argument is one of ours, socket the
  *        query is assigned to, using_tcp, try_count, cookie_try_count, timeouts, no_retries), the
  *        per-server cookie record (servers in configuration order) and the open connections.
- *        Evaluated after every top level op and at every arecvfrom call (i.e. before a read
+ *        Evaluated after every top level op, at every asendto call (a query created inside a
+ *        callback shows up before its transmission) and at every arecvfrom call (i.e. before a read
  *        batch); printed only when the text differs from the last QSTATE printed - an absent
  *        line means "unchanged".
  *   ALLOCFAIL at=<n>                     the n-th counted allocation returned NULL
